@@ -109,6 +109,13 @@ public:
 	template <typename ...A>
 	bool mixinBeforeDispatch(A && ...) const { ++g_passMixinCalls; return true; }
 };
+// VH_MIXINS == 3: a mixin WITHOUT a mixinBeforeDispatch hook listed before MixinFilter (known finding D12: the hook
+// detection finds MixinFilter's hook through inheritance once more, the filters run twice per dispatch)
+template <typename Base>
+class HooklessMixin : public Base {
+public:
+	int hooklessMixinMarker() const { return 1; }
+};
 static long g_cciM = 0, g_cciR = 0;
 static long g_policyMoved = 0; // a policy received a moved-from argument
 static bool cciVerdict(const Payload & a) {
@@ -145,7 +152,9 @@ struct Policies {
 #endif
 #endif
 #endif
-#if VH_MIXINS == 2
+#if VH_MIXINS == 3
+	using Mixins = eventpp::MixinList<HooklessMixin, eventpp::MixinFilter>;
+#elif VH_MIXINS == 2
 	using Mixins = eventpp::MixinList<PassMixin, eventpp::MixinFilter>;
 #else
 	using Mixins = eventpp::MixinList<eventpp::MixinFilter>;
